@@ -112,6 +112,7 @@ class World(sp.Obs):
         self.flags = []              # online monitor violations: (name, detail...)
         self.pool_idx = 0
         self.batches = []            # bid -> dict
+        self.batch_of = {}
         self.cur_call = None
         self.calls = []              # per call dict: outcome etc
         self.fail = {c: {int(k): v for k, v in (call.get("fail") or {}).items()}
@@ -138,6 +139,8 @@ class World(sp.Obs):
         self.frozen_pulls = {}       # call -> pulled count at the moment the call was over
         self.nested = []
         self.probes = collections.Counter()
+        self.b_cfg = 1
+        self.inline_in_start = collections.Counter()
 
     # -- generic log
     def ev(self, *a):
@@ -176,6 +179,8 @@ class World(sp.Obs):
              "submit_call": self.cur_call, "thread": me.name if me else None, "start": None, "end": None,
              "cb_start": None, "cb_end": None, "cb_count": 0, "submit_t": ds.S.now}
         self.batches.append(b)
+        for i in b["items"]:
+            self.batch_of[(c, i)] = b
         if c is not None:
             self.inflight[c] += 1
             self.max_inflight[c] = max(self.max_inflight[c], self.inflight[c])
@@ -207,6 +212,8 @@ class World(sp.Obs):
                 self.probes["late_completion"] += 1
             if me is not None and self.in_start:
                 self.probes["callback_during_start"] += 1
+                if inline and c is not None:
+                    self.inline_in_start[c] += 1
         self.ev("cb_start", bid, inline)
 
     def cb_end(self, bid):
@@ -221,7 +228,10 @@ class World(sp.Obs):
         self.running_by_pool[pool] += 1
         self.max_running_by_pool[pool] = max(self.max_running_by_pool[pool], self.running_by_pool[pool])
         if self.calls[c].get("over") if c < len(self.calls) else False:
-            self.calls[c].setdefault("starts_after_over", []).append(i)
+            # allowed when the batch it belongs to was already running when the call ended
+            b = self.batch_of.get((c, i))
+            if b is None or b["start"] is None or b["start"] > self.calls[c]["over_seq"]:
+                self.calls[c].setdefault("starts_after_over", []).append(i)
         self.ev("tstart", c, i, me.name if me else None)
 
     def task_end(self, c, i, me):
@@ -293,6 +303,14 @@ def install_seams(w, case):
         finally:
             w.in_start = False
     jp.Parallel._start = _start
+    # largest batch size in force (fixed, or the effective one of auto-batching)
+    orig_gbs = jp.Parallel._get_batch_size
+
+    def _get_batch_size(self):
+        b = orig_gbs(self)
+        w.b_cfg = max(w.b_cfg, b)
+        return b
+    jp.Parallel._get_batch_size = _get_batch_size
     # unordered mode iterates over a set of callbacks: make that order a function
     # of the run, not of object addresses
     seq = itertools.count()
@@ -373,6 +391,7 @@ def run_parallel_case(case, consumer=None, setup=None):
             except BaseException as e:  # noqa
                 rec["outcome"] = outcome_of_exception(e)
             rec["over"] = True
+            rec["over_seq"] = len(w.events)
             rec["t1"] = s.now
             w.frozen_pulls[c] = w.pulled[c]
             w.ev("call_end", c, rec["outcome"]["kind"])
@@ -427,6 +446,9 @@ def base_outcome(w, s, verdict, nontrivial=None, sample=None):
         out["decisions"] = s.decisions
     if sample is not None:
         out["sample"] = sample
+    if w.case.get("want_events"):
+        out["events"] = [tuple(map(str, e)) for e in w.events]
+        out["log"] = s.log
     return out
 
 
@@ -492,3 +514,48 @@ def gen_durations(rng, n):
         d = rng.choice(DURS)
         return [d] * n
     return [rng.choice(DURS) for _ in range(n)]
+
+
+# -----------------------------------------------------------------------------
+# oracle pieces shared by C01 / C04 / C16
+
+def V(cls, detail, **sig):
+    sig.setdefault("what", cls)
+    return {"class": cls, "detail": detail, "sig": sig}
+
+
+def check_ok_call(w, c, ordered=True):
+    """A call without any fault: exact values, exactly-once, submission order."""
+    case = w.case
+    call = case["calls"][c]
+    rec = w.calls[c] if c < len(w.calls) else None
+    if rec is None or rec["outcome"] is None:
+        return V("no_outcome", "call %d has no outcome" % c)
+    want = [value_of(c, i) for i in range(call["n"])]
+    if rec["outcome"]["kind"] != "ok":
+        return V("unexpected_exception", "call %d (no fault planned) raised %s%s" % (
+            c, rec["outcome"]["type"], rec["outcome"]["args"]), type=rec["outcome"]["type"])
+    got = list(rec["values"])
+    if (got != want) if ordered else (sorted(got) != want):
+        return V("wrong_result", "call %d returned %s, expected %s" % (c, str(got)[:300], str(want)[:200]))
+    ex = w.exec[c]
+    if sorted(ex) != list(range(call["n"])):
+        dup = sorted(set(i for i in ex if ex.count(i) > 1)); lost = sorted(set(range(call["n"])) - set(ex))
+        return V("not_exactly_once", "call %d: executed twice %s, never %s" % (c, dup, lost))
+    sub = [i for b in w.batches if b["call"] == c for i in b["items"]]
+    if case["flavour"] != "S" and eff_n_jobs(case) != 1 and sub != list(range(call["n"])):
+        return V("submission_order", "call %d: batches handed to the backend concatenate to %s" % (c, sub[:60]))
+    return None
+
+
+def check_leftovers(w, c):
+    """Nothing of call c is dispatched once the call is over; with backends that
+    can abort, nothing of it starts either."""
+    rec = w.calls[c]
+    if rec.get("submits_after_over"):
+        return V("dispatch_after_call_over", "call %d: batches %s submitted after the call was over" % (
+            c, rec["submits_after_over"][:5]))
+    if w.case["flavour"] in ("T", "M", "L") and rec.get("starts_after_over"):
+        return V("task_started_after_call_over", "call %d: tasks %s started after the call was over" % (
+            c, rec["starts_after_over"][:5]))
+    return None
